@@ -32,6 +32,10 @@ def explain_obs(code):
         return "harness error: dangling table index"
     if k == 31:
         return "row counts per table for plan id #%d differ from the model's (orphan or missing rows)" % j
+    if k == 32:
+        return "Exists of id #%d differs from the specification (a plan that was not stored exists, or a stored one does not)" % j
+    if k == 33:
+        return "cosmosdb: the search partition's entry for id #%d is there / not there against the model" % j
     if k == 41:
         return "cosmosdb items emitted for the plan differ from the model's planToItems (item #%d)" % j
     return "code %r" % (code,)
